@@ -47,7 +47,7 @@ COMPONENTS = {
     "real": ["VariableScaler", "EnOptConfig validation with transform context", "EnsembleEvaluator (from/to optimizer)", "results transform_from_optimizer", "BasicOptimizer", "optimizer step"],
     "stub": ["objective/constraint scalers (user supplied)", "SimEvaluator", "sim/scripted optimizer"],
 }
-PROBES = ["explicit_step_variables", "calls_compared", "results_compared", "perturbed_rows_compared", "feasibility_points_compared", "roundtrip_checked",
+PROBES = ["multi_key_filter_with_objective_scaling", "explicit_step_variables", "calls_compared", "results_compared", "perturbed_rows_compared", "feasibility_points_compared", "roundtrip_checked",
           "variable_transform", "objective_transform", "constraint_transform", "linear_constraints", "relative_perturbation",
           "basic_dict_path", "basic_validated_path", "constraint_info_compared", "nan_faults"]
 
@@ -66,9 +66,13 @@ def generate(seed: int, index: int, tier: str) -> dict:
                             script_len=rng.randint(1, 4), inject_p=0.5, step="optimizer", merge=False,
                             zero_real_weights=False, world_kind="quadratic")
     cfg = scn["configs"][0]
+    multi_key = rng.random() < 0.3
     for f in cfg.get("realization_filters", []):
-        if f["method"].endswith("objective"):
+        if f["method"].endswith("objective") and not (multi_key and len(f["options"]["sort"]) > 1):
             f["options"]["sort"] = f["options"]["sort"][:1]
+    if any(f["method"].endswith("objective") and len(f["options"]["sort"]) > 1 for f in cfg.get("realization_filters", [])):
+        # a filter that ranks by a weighted sum of several objectives, next to an objective scaler with unequal scales
+        scn["multi_key_filter"] = True
     tr = scn["transforms"] or {}
     tr.setdefault("var", None), tr.setdefault("obj", None), tr.setdefault("con", None)
     if tr.get("obj"):
@@ -309,6 +313,12 @@ def execute(scn: dict) -> dict:
             _feasibility(scn, vconf, tm, viol, probes)
         evals, events, fired = len(eva.calls) + len(evb.calls), len(resa) + len(resb), dict(evb.fired)
         digest = digest_bytes(*[c.variables.tobytes() for c in eva.calls + evb.calls], repr((exa, exb)).encode())
+    if scn.get("multi_key_filter") and (tr.get("obj") or {}).get("scales"):
+        probe("multi_key_filter_with_objective_scaling")
+        if viol:
+            # one defect with many faces (other realizations selected: values, weights, flags, even the outcome differ)
+            viol = [{"clause": "multi-key-filter-ranks-scaled-objectives", "sig": {},
+                     "detail": f"filter ranking by several objectives, objective scales {tr['obj']['scales']}: " + viol[0]["detail"]}]
     for v in viol:
         v["sig"]["path"] = path
     return {
